@@ -201,7 +201,7 @@ func genC09(t *core.Tape, tier string) *Scenario {
 		attacks := []string{"declared-4g-3-present", "declared-n+1-nothing", "declared-1m-actual-1m", "flagged-endstream-1m", "flagged-trailers-1m", "bomb", "content-length-lie"}
 		info.attack = attacks[t.Choose(len(attacks), "attack")]
 		if !streaming && info.attack != "bomb" && info.attack != "content-length-lie" {
-			info.attack = []string{"bomb", "content-length-lie", "plain-1m"}[t.Choose(3, "attack.unary")]
+			info.attack = []string{"bomb", "content-length-lie", "plain-1m", "plain-1m-length-understated"}[t.Choose(4, "attack.unary")]
 		}
 		if streaming && info.attack == "content-length-lie" {
 			info.attack = "declared-4g-3-present"
@@ -223,6 +223,13 @@ func genC09(t *core.Tape, tier string) *Scenario {
 			body = append(append(body, prefix(ref.FlagTrailers, 1<<20)...), big...)
 		case "plain-1m":
 			body = big
+		case "plain-1m-length-understated":
+			// the declared length fits the limit, the body does not: what a
+			// handler sees behind a middleware that rewrites or inflates the
+			// body and leaves the header as it came (net/http itself cuts a
+			// request body at its Content-Length)
+			body = big
+			hdrExtra["Content-Length"] = []string{strconv.Itoa([]int{1, n, (n + 1) / 2}[t.Choose(3, "understated")])}
 		case "content-length-lie":
 			body = []byte{1, 2, 3, 4, 5}
 			hdrExtra["Content-Length"] = []string{strconv.Itoa(64 << 20)}
